@@ -1,6 +1,6 @@
 (* Entry points of the extracted model: one number per model function. *)
 From Coq Require Import ZArith List.
-From Tdda Require Import Base.Sexp RefTest.Argv RefTest.Tagged Serial.DateFmt RefTest.CheckStrings RefTest.Artefacts RefTest.Regen Constraints.Model Constraints.Detect Constraints.Serialise Constraints.Cli Rexpy.Coverage Rexpy.Wire Rexpy.Prng RefTest.FrameCmp.
+From Tdda Require Import Base.Sexp RefTest.Argv RefTest.Tagged Serial.DateFmt RefTest.CheckStrings RefTest.Artefacts RefTest.Regen Constraints.Model Constraints.Detect Constraints.Serialise Constraints.Cli Rexpy.Coverage Rexpy.Wire Rexpy.Prng RefTest.FrameCmp Gentest.DateLike Gentest.Quote Gentest.Script.
 Import ListNotations.
 Open Scope Z_scope.
 
@@ -30,5 +30,9 @@ Definition dispatch (n : Z) (s : sexp) : sexp :=
   | 22 => prng_entry s
   | 23 => framecmp_entry s
   | 24 => typesmatch_entry s
+  | 25 => datelike_entry s
+  | 26 => quote_entry s
+  | 27 => testnames_entry s
+  | 28 => generated_entry s
   | _ => L [A (-1)]
   end.
